@@ -792,6 +792,8 @@ class Interp:
             return NativeMethod(value, name)
         if isinstance(value, (int, float)) and not isinstance(value, bool) and name in _NATIVE_METHODS.get(type(value).__name__, ()):
             return NativeMethod(value, name)
+        if isinstance(value, bytes) and name in _NATIVE_METHODS["bytes"]:
+            return NativeMethod(value, name)
         if isinstance(value, GenVal) and name == "close":
             return NativeMethod(value, name)
         if isinstance(value, Opaque):
@@ -1763,6 +1765,7 @@ _NATIVE_METHODS = {
     "tuple": ("index", "count"),
     "set": ("add", "discard", "update", "copy"),
     "frozenset": ("copy",),
+    "bytes": ("decode",),
 }
 
 
